@@ -1064,6 +1064,106 @@ def gen_orbits():
 GENERATORS["orbits"] = gen_orbits
 
 
+# ---------------------------------------------------------------------------------------------
+# link cores: the six straight-line functions of components/betas.rs every link / sew / unlink / unsew goes through,
+# translated instruction by instruction
+# ---------------------------------------------------------------------------------------------
+
+BETAS_RS = os.environ.get("GEN_LEAN_BETAS_RS", "/repo/honeycomb-core/src/cmap/components/betas.rs")
+CORES_OUT = os.path.join(os.path.dirname(os.path.dirname(os.path.abspath(__file__))), "lean", "Honeycomb", "Gen", "LinkCores.lean")
+LINK_ERRS = {"NonFreeBase": 0, "NonFreeImage": 1, "AlreadyFree": 2}
+CORE_FNS = ["one_link_core", "two_link_core", "three_link_core", "one_unlink_core", "two_unlink_core", "three_unlink_core"]
+
+
+def core_instrs(src, fname):
+    where = f"betas.rs {fname}"
+    sig = fn_sig(src, fname)
+    params = re.findall(r"(\w+)\s*:\s*DartIdType", sig)
+    need(params in (["lhs_dart_id", "rhs_dart_id"], ["lhs_dart_id"]), f"{where}: parameters {params}")
+    need(re.search(r"trans\s*:\s*&mut Transaction", sig), f"{where}: no transaction parameter")
+    names = {"lhs_dart_id": 0, "NULL_DART_ID": 2}
+    if len(params) == 2:
+        names["rhs_dart_id"] = 1
+    # all white space removed: the recognition is independent of the layout
+    body = "".join(fn_body(src, fname).split())
+
+    def arg(tok):
+        tok = tok.strip()
+        if re.fullmatch(r"\d+", tok):
+            return 10 + int(tok)
+        need(tok in names, f"{where}: unknown name {tok!r}")
+        return names[tok]
+
+    def err(kind, args):
+        need(kind in LINK_ERRS, f"{where}: unknown LinkError::{kind}")
+        return [LINK_ERRS[kind]] + [arg(a) for a in args.split(",") if a.strip()]
+
+    cell = r"self\[\((\d),(\w+)\)\]"
+    ab = r"\{returnabort\(LinkError::(\w+)\(([^)]*)\)\);?\}"
+    pats = [("G", re.compile(r"if" + cell + r"\.read\(trans\)\?!=NULL_DART_ID" + ab)),
+            ("W", re.compile(cell + r"\.write\(trans,(\w+)\)\?;")),
+            ("R", re.compile(r"let(\w+)=" + cell + r"\.replace\(trans,NULL_DART_ID\)\?;")),
+            ("N", re.compile(r"if(\w+)==NULL_DART_ID" + ab)),
+            ("E", re.compile(r"Ok\(\(\)\)$"))]
+    out, pos, bound, ended = [], 0, False, False
+    while pos < len(body):
+        for k, rx in pats:
+            m = rx.match(body, pos)
+            if m:
+                break
+        else:
+            raise Shape(f"{where}: statement not recognised at: {body[pos:pos + 80]!r}")
+        need(not ended, f"{where}: code after Ok(())")
+        if k == "G":
+            out.append((0, [int(m.group(1)), arg(m.group(2))] + err(m.group(3), m.group(4))))
+        elif k == "W":
+            out.append((1, [int(m.group(1)), arg(m.group(2)), arg(m.group(3))]))
+        elif k == "R":
+            need(not bound, f"{where}: more than one let")
+            need(m.group(1) not in names, f"{where}: let shadows {m.group(1)}")
+            out.append((2, [int(m.group(2)), arg(m.group(3))]))
+            names[m.group(1)] = 3
+            bound = True
+        elif k == "N":
+            out.append((3, [arg(m.group(1))] + err(m.group(2), m.group(3))))
+        else:
+            ended = True
+        pos = m.end()
+    need(ended, f"{where}: does not end with Ok(())")
+    return out
+
+
+def gen_cores():
+    src = strip_comments(open(BETAS_RS).read())
+    need(sorted(re.findall(r"\bfn\s+(\w+_core)\b", src)) == sorted(CORE_FNS), "betas.rs: unexpected set of *_core functions: " +
+         str(sorted(re.findall(r"\bfn\s+(\w+_core)\b", src))))
+    fns = [(f, core_instrs(src, f)) for f in CORE_FNS]
+    out = ["/-\n  GENERATED by /verif/tools/gen_lean.py from\n  /repo/honeycomb-core/src/cmap/components/betas.rs — DO NOT EDIT.\n"
+           "  Regenerated by tools/check.py before every build of a module that imports it.\n\n"
+           "  The six `*_core` functions, instruction by instruction, as (opcode, operands):\n"
+           "    (0, [i, x, k, e…])  if self[(i, x)].read(trans)? != NULL_DART_ID { return abort(LinkError::k(e…)) }\n"
+           "    (1, [i, x, v])      self[(i, x)].write(trans, v)?\n"
+           "    (2, [i, x])         let y = self[(i, x)].replace(trans, NULL_DART_ID)?        (binds the variable)\n"
+           "    (3, [y, k, e…])     if y == NULL_DART_ID { return abort(LinkError::k(e…)) }\n"
+           "  operands x, v, y, e: 0 = lhs_dart_id, 1 = rhs_dart_id (parameter), 2 = NULL_DART_ID, 3 = the let-bound variable,\n"
+           "  10 + n = the literal n; k: 0 = NonFreeBase, 1 = NonFreeImage, 2 = AlreadyFree.  Every function ends with Ok(()).\n"
+           "  Props/C01Gen.lean interprets these lists in the model's transaction monad and proves the result EQUAL to the\n"
+           "  hand-written cores (`oneLinkCore`, `iLinkCore`, `oneUnlinkCore`, `iUnlinkCore`) all C01 / C02 theorems are about.\n-/\n",
+           "namespace HC.Gen\n"]
+    for f, ins in fns:
+        camel = re.sub(r"_(\w)", lambda m: m.group(1).upper(), f)
+        out.append(f"/-- `{f}` -/\ndef {camel} : List (Nat × List Nat) := [" +
+                   ", ".join(f"({op}, [{', '.join(map(str, a))}])" for op, a in ins) + "]\n")
+    out.append("end HC.Gen\n")
+    txt = "\n".join(out)
+    if not os.path.exists(CORES_OUT) or open(CORES_OUT).read() != txt:
+        open(CORES_OUT, "w").write(txt)
+    return f"gen_lean: cores ok ({sum(len(i) for _, i in fns)} instructions in {len(fns)} functions)"
+
+
+GENERATORS["cores"] = gen_cores
+
+
 def run(names):
     """returns (ok, log)"""
     logs, ok = [], True
